@@ -116,6 +116,9 @@ def guarded(ctx, fn, *args, **kw):
     """Run one generated case. A case that hits a wall-clock budget (real-thread modes only; the deterministic
     scheduler gives exact verdicts) is counted as inconclusive and skipped - never a violation, and not a reason to
     fail the whole check unless it keeps happening."""
+    if os.environ.get("VERIF_TRACE_CASES"):  # debugging aid: which case is a shard working on?
+        with open(f"/dev/shm/cur-{ctx.prop}-{ctx.shard}.json", "w") as f:
+            json.dump({"t": time.time(), "n": ctx.evaluations, "args": canon(list(args))}, f)
     try:
         return fn(ctx, *args, **kw)
     except Inconclusive as e:
@@ -191,6 +194,12 @@ def drive_machine(ctx, machine_cls, max_examples, steps, shrink=None):
 
 def _shard_entry(args):
     modname, prop, tier, seed, shard, nshards, scale, opts = args
+    if os.environ.get("VERIF_DUMP_AFTER"):  # debugging aid (see vlib/main.py)
+        import faulthandler
+
+        global _DUMP_FILE
+        _DUMP_FILE = open(f"/dev/shm/dump-{prop}-{shard}.txt", "w")
+        faulthandler.dump_traceback_later(int(os.environ["VERIF_DUMP_AFTER"]), repeat=True, file=_DUMP_FILE)
     try:
         mod = importlib.import_module(modname)
         ctx = Ctx(prop, tier, seed, shard, nshards, scale, opts)
